@@ -695,6 +695,31 @@ def fit_combo(c):
            (':constant-sill' if cons_sill != [] else '') + (':intrinsic' if opts[9] else '') + \
            (':pair-without-valid-lag' if d and path != 1 and any(v == 0 for v in d[0]) else '')
 
+def inferred_params(c):
+    """which anisotropy parameters the library infers for this configuration (st_alter_model_optvar / st_alter_vmap_optvar,
+    re-stated here only to NAME the violation keys): returns (anisotropy ranges inferred, rotation inferred)"""
+    path, ndim, opts, dirs = c[1], c[2], c[8], c[5]
+    aniso, rot, iso2d = bool(opts[2]), bool(opts[3]), bool(opts[7])
+    if path == 1: return True, True           # the variogram map path forces both
+    ndir = len(dirs)
+    n2 = ndir if ndim == 2 else sum(1 for d in dirs if len(d[0]) > 2 and undy(d[0][2]) == 0) if ndim == 3 else 0
+    if ndim == 3 and n2 <= 0: iso2d = True
+    if ndir <= ndim: rot = False
+    if ndir <= 1 or ndim <= 1: aniso = False; rot = False
+    if n2 <= 1: iso2d = True
+    if iso2d: rot = False
+    if not aniso: rot = False
+    return aniso, rot
+
+def total_sill_defect(S, nvar):
+    """'' or the reason why kriging with this model is singular whatever the data: zero / singular total sill matrix"""
+    T = [[sum(st['sill'][i][j] for st in S) for j in range(nvar)] for i in range(nvar)]
+    if any(v is None for r in T for v in r): return ''
+    if any(T[i][i] == 0 for i in range(nvar)): return ':zero-total-sill'
+    tr = sum(T[i][i] for i in range(nvar))
+    shifted = [[T[i][j] - (Fraction(1, 10**9) * tr if i == j else 0) for j in range(nvar)] for i in range(nvar)]
+    return '' if is_psd_exact(shifted, Fraction(0)) else ':singular-total-sill'
+
 def ang_eq(a, b, tol=1e-7):
     d = (float(a) - float(b)) % 360.0
     return min(d, 360.0 - d) <= tol
@@ -717,7 +742,10 @@ def check_fit_result(ctx, c, ii):
     status, structs, refang, refcanon, hmax, post, trace, exc, ms = ii
     ctx.fit_ms.append((ms, fit_combo(c), c[9][0]))
     exc_s = ''.join(chr(x) for x in exc)
-    if status == -98: return [(fatal('exception'), 'the fit threw an exception instead of reporting failure: %s' % exc_s)]
+    if status == -98:
+        what = 'length-error' if '_M_default_append' in exc_s or 'length' in exc_s else 'null-ellipsoid-radius' if 'Ellipsoid radius' in exc_s else \
+               'bad-alloc' if 'bad_alloc' in exc_s or 'bad_array' in exc_s else 'other'
+        return [(fatal('exception-' + what), 'the fit threw an exception instead of reporting failure: %s' % exc_s)]
     if status == -5: return []
     if status != 0:
         ctx.dist('fit_failure_reported'); return []
@@ -764,7 +792,10 @@ def check_fit_result(ctx, c, ii):
         else:
             bad = ('lo' in sides and g < v - t) or ('up' in sides and g > v + t)
         if bad:
+            an_inf, rot_inf = inferred_params(c)
+            not_inferred = (elem == E_RANGE and iv1 > 0 and not an_inf) or (elem == E_ANGLE and not rot_inf)
             key = '%s:constraint:after-reduction:not-satisfied' % PATHS[path] if len(S) < len(types) else \
+                  '%s:constraint-on-parameter-not-inferred:not-satisfied' % PATHS[path] if not_inferred else \
                   ('%s:constraint-sill:%s:not-satisfied' % (PATHS[path], 'goulard' if opts[1] else 'no-goulard') if elem == E_SILL else '%s:constraint-%s-%s:not-satisfied' % (PATHS[path], ELEM[elem], CASE[case]))
             out.append((key,
                         'structure %d (type %d): %s[%d] = %r, user constraint %s %r' % (icov, st['type'], ELEM[elem], iv1, g, CASE[case], v)))
@@ -777,7 +808,10 @@ def check_fit_result(ctx, c, ii):
     if not opts[3] and ndim > 1 and path in (0, 1):
         ref = [undy(x) for x in refcanon] if path != 1 else [Fraction(0)] * ndim
         for k, st in enumerate(S):
-            if st['hasrange'] != 0 and not all(ang_eq(a, b) for a, b in zip(st['angles'][:ndim], ref[:ndim])):
+            # an equality constraint of the user on an angle of this structure is an accepted value too
+            ok_vals = [[b] + [undy(it[6]) for it in items if it[0] == 0 and it[2] == E_ANGLE and it[5] == T_EQUAL and it[3] == j and
+                              it[1] in fin and fin[it[1]] is st] for j, b in enumerate(ref[:ndim])]
+            if st['hasrange'] != 0 and not all(any(ang_eq(a, b) for b in bs) for a, bs in zip(st['angles'][:ndim], ok_vals)):
                 out.append(('%s:rotation-locked:angles-changed' % PATHS[path], 'rotation locked, structure %d has angles %s, reference %s' % (k, [fl(x) for x in st['angles']], [fl(x) for x in ref]))); break
     # P5 save / reload / krige
     saved, reloaded, same, krig, nfinite, minstd = post
@@ -785,7 +819,10 @@ def check_fit_result(ctx, c, ii):
         if saved != 1: out.append(('%s:save-failed' % combo, 'dumpToNF of the fitted model failed'))
         elif reloaded != 1: out.append(('%s:reload-failed' % combo, 'the saved model cannot be read back'))
         elif krig != 0: out.append(('%s:kriging-failed' % combo, 'kriging with the reloaded model returns %d' % krig))
-        elif nfinite < 8 * nvar: out.append(('%s:kriging-undefined-results' % combo, 'kriging with the reloaded model gives only %d defined values out of %d' % (nfinite, 8 * nvar)))
+        elif nfinite < 8 * nvar:
+            why = total_sill_defect(S, nvar)
+            out.append(('%s%s:kriging-undefined-results' % (combo, why), 'kriging with the reloaded model gives only %d defined values out of %d%s' % (nfinite, 8 * nvar,
+                        ' (the sum of the sill matrices is %s)' % why[1:].replace('-', ' ') if why else '')))
     return out
 
 def check_fit_trace(ctx, c, ii, mcases, mmeta):
@@ -927,12 +964,13 @@ def directed_fit_cases():
         out.append([10, path, 2, nvar, data, dirs, list(edits), types, opts, [maxiter, 2], [list(i) for i in items], cons, 1, 0])
     p1 = points(80, 1); p2 = points(80, 2); ph = points(60, 2, hetero=True)
     add(0, 1, p1, dirs2(2), [0, 2], O())                                                   # plain
-    add(0, 1, p1, dirs2(2), [0, 2], O(goulard=0), [[0, 1, E_SILL, 0, 0, T_UPPER, D(4)]])   # sill bound, Goulard switched off by the user
+    add(0, 1, p1, dirs2(2), [0, 2], O(goulard=0), [[0, 1, E_SILL, 0, 0, T_EQUAL, D(4)]])   # sill bound, Goulard switched off by the user
     add(0, 1, p1, dirs2(2), [0, 2], O(), [[0, 1, E_SILL, 0, 0, T_UPPER, D(Fraction(1, 4))]])  # sill bound, Goulard on (switched off by the library)
     add(0, 1, p1, dirs2(2), [0, 2], O(), [[0, 1, E_RANGE, 0, 0, T_EQUAL, D(3)], [0, 1, E_RANGE, 1, 0, T_UPPER, D(2)]])
     add(0, 1, p1, dirs2(2), [0, 2], O(), [[0, 1, E_RANGE, 0, 0, T_LOWER, D(6)], [0, 1, E_RANGE, 0, 0, T_UPPER, D(2)]])   # lower > upper
     add(0, 1, p1, dirs2(3, tol=30.0), [0, 2], O(), [[0, 1, E_ANGLE, 0, 0, T_EQUAL, D(30)]])                            # rotation inferred
     add(0, 1, p1, dirs2(2), [0, 2], O(), [[0, 1, E_ANGLE, 0, 0, T_EQUAL, D(30)]])                                       # rotation not inferred (2 directions)
+    add(0, 1, p1, dirs2(1), [0, 2], O(), [[0, 1, E_RANGE, 1, 0, T_EQUAL, D(2)]])                                        # one direction: anisotropy not inferred
     add(0, 1, p1, dirs2(3, tol=30.0), [0, 2], O(aniso=0))
     add(0, 1, p1, dirs2(3, tol=30.0), [0, 2], O(rot=0))
     add(0, 1, p1, dirs2(2), [0, 10], O(), [[0, 1, E_PARAM, 0, 0, T_UPPER, D(Fraction(3, 2))]])
@@ -953,13 +991,15 @@ def directed_fit_cases():
     add(0, 2, ph, dirs2(2), [0, 2], O(), cons=D(2), maxiter=50)
     add(0, 2, p2, dirs2(2), [0, 2], O(), cons=D(2), maxiter=0)
     add(2, 2, p2, dirs2(2), [0, 2], O(), cons=D(2), maxiter=50)
+    add(3, 2, p2, dirs2(2), [0, 2], O(), cons=D(2), maxiter=50)
     # variogram map on a 10 x 10 grid
     vals = [[D(Fraction(round((math.sin(i / 3.) + math.cos(j / 2.) + 0.3 * rng.gauss(0, 1)) * 64), 64))] for j in range(10) for i in range(10)]
     out.append([10, 1, 2, 1, [10, 10, vals, 4], [], [], [0, 2], O(), [50, 2], [], [], 1, 0])
     out.append([10, 1, 2, 1, [10, 10, vals, 4], [], [], [0, 2], O(aniso=0), [50, 2], [], [], 1, 0])
     out.append([10, 1, 2, 1, [10, 10, vals, 4], [], [], [0, 2], O(rot=0), [50, 2], [], [], 1, 0])
     out.append([10, 1, 2, 1, [10, 10, vals, 4], [], [], [0, 2], O(), [50, 2], [[0, 1, E_RANGE, 0, 0, T_UPPER, D(3)]], [], 1, 0])
-    out.append([10, 1, 2, 1, [10, 10, vals, 4], [], [], [0, 2], O(goulard=0), [50, 2], [[0, 1, E_SILL, 0, 0, T_UPPER, D(4)]], [], 1, 0])
+    out.append([10, 1, 2, 1, [10, 10, vals, 4], [], [], [0, 2], O(goulard=0), [50, 2], [[0, 1, E_SILL, 0, 0, T_EQUAL, D(4)]], [], 1, 0])
+    out.append([10, 1, 2, 1, [10, 10, vals, 4], [], [], [0, 1, 2], O(noreduce=0), [3, 2], [[0, 2, E_RANGE, 0, 0, T_UPPER, D(Fraction(1, 2))]], [], 1, 0])
     vals2 = [[v[0], D(Fraction(rng.randint(-64, 64), 64))] for v in vals]
     out.append([10, 1, 2, 2, [10, 10, vals2, 4], [], [], [0, 2], O(goulard=0), [50, 2], [], [], 1, 0])
     out.append([10, 1, 2, 2, [10, 10, vals2, 4], [], [], [0, 2], O(), [50, 2], [], [], 1, 0])
